@@ -1344,6 +1344,11 @@ where
                     if inner.flags.contains(Flags::WRITE_DISCONNECT) {
                         Poll::Ready(Ok(()))
                     } else {
+                        // whatever path led to SHUTDOWN (`Connection: close`, 408, read half
+                        // closed, graceful drain, linger timeout), the flush and socket shutdown
+                        // below are bounded by the disconnect timeout when one is configured
+                        let _ = inner.as_mut().ensure_linger_timer(cx);
+
                         // flush buffer and wait on blocked
                         ready!(inner.as_mut().poll_flush(cx))?;
                         Pin::new(inner.as_mut().project().io.as_mut().unwrap())
